@@ -52,6 +52,7 @@ _BASE = {"char": "char", "uchar": "char", "short": "short", "ushort": "short", "
          "long": "long", "ulong": "long", "llong": "llong", "ullong": "llong"}
 _UNSIGNED_OF = {"char": "uchar", "short": "ushort", "int": "uint", "long": "ulong", "llong": "ullong"}
 SUFFIX_TYPE = {"": "int", "u": "uint", "l": "long", "ul": "ulong", "ll": "llong", "ull": "ullong"}
+# suffix "auto": unsuffixed decimal constant whose type follows from its value (6.4.4.1)
 
 UNOPS = {"neg": "-", "inv": "~", "lnot": "!", "pos": "+"}
 BINOPS = {"add": "+", "sub": "-", "mul": "*", "div": "/", "mod": "%", "shl": "<<", "shr": ">>",
@@ -234,7 +235,17 @@ class Eval:
         dm = self.dm
         k = e[0]
         if k == "lit":
-            return self.lits[e[1]], SUFFIX_TYPE[e[2]]
+            v = self.lits[e[1]]
+            if e[2] == "auto":
+                # unsuffixed decimal constant: the first of int, long, long long that can represent the value
+                # (6.4.4.1p5); none => the constant has no type (constraint violation = premise).  The type depends
+                # on the value: the evaluation forks here when the value is symbolic.
+                for t in ("int", "long", "llong"):
+                    if v <= dm.hi(t):
+                        return v, t
+                self._undef(g, True)
+                return self.conv(v, "ullong", g), "ullong"
+            return v, SUFFIX_TYPE[e[2]]
         if k == "cast":
             v, _ = self.ev(e[2], g)
             return self.conv(v, e[1], g), e[1]
@@ -513,6 +524,37 @@ def renumber(e, counter=None):
         counter[0] += 1
         return ["lit", counter[0] - 1, e[2]]
     return [e[0]] + [renumber(x, counter) if isinstance(x, (list, tuple)) else x for x in e[1:]]
+
+
+_PREC = {"mul": 13, "div": 13, "mod": 13, "add": 12, "sub": 12, "shl": 11, "shr": 11, "lt": 10, "le": 10, "gt": 10,
+         "ge": 10, "eq": 9, "ne": 9, "band": 8, "bxor": 7, "bor": 6, "land": 5, "lor": 4, "cond": 3}
+
+
+def render_min(e, littext):
+    """C text with only the parentheses the C grammar needs (6.5: precedence, left associativity of the binary
+    operators, right associativity of ?:, unary operators and casts bind tighter than any binary operator)"""
+    def prec(x):
+        if x[0] == "lit":
+            return 16
+        if x[0] == "cast" or x[0] in UNOPS:
+            return 14
+        return _PREC[x[0]]
+
+    def r(x, need):
+        k = x[0]
+        if k == "lit":
+            t = littext(x[1], x[2])
+        elif k == "cast":
+            t = f"({SPELL[x[1]]}){r(x[2], 14)}"
+        elif k in UNOPS:
+            t = f"{UNOPS[k]} {r(x[1], 14)}"
+        elif k == "cond":
+            t = f"{r(x[1], 4)} ? {r(x[2], 0)} : {r(x[3], 3)}"
+        else:
+            p = _PREC[k]
+            t = f"{r(x[1], p)} {BINOPS[k]} {r(x[2], p + 1)}"
+        return f"({t})" if prec(x) < need else t
+    return r(e, 0)
 
 
 def render(e, littext):
